@@ -19,6 +19,64 @@ def _molli():
     return mc
 
 
+# Attributes of atoms / bonds that the property does NOT make part of a match (it names elements and adjacency
+# only): they are varied independently in target and pattern and must not change any answer.
+ATYPES = ("Unknown", "Regular", "Aromatic", "CoordinationCenter", "Hypervalent", "sp3", "sp2", "sp", "Dummy",
+          "AttachmentPoint", "LonePair", "N_Amide", "O_Carboxylate")
+GEOMS = ("Unknown", "R1", "R2_Linear", "R2_Bent", "R3_Planar", "R3_Pyramidal", "R4_Tetrahedral", "R6_Octahedral")
+ASTEREO = ("Unknown", "NotStereogenic", "R", "S", "Delta")
+BSTEREO = ("Unknown", "NotStereogenic", "E", "Z", "Axial_R")
+
+
+def set_deco(atom, d):
+    mc = _molli()
+    if "atype" in d:
+        atom.atype = mc.AtomType[d["atype"]]
+    if "geom" in d:
+        atom.geom = mc.AtomGeom[d["geom"]]
+    if "stereo" in d:
+        atom.stereo = mc.AtomStereo[d["stereo"]]
+    if "isotope" in d:
+        atom.isotope = d["isotope"]
+    if "formal_charge" in d:
+        atom.formal_charge = d["formal_charge"]
+    if "formal_spin" in d:
+        atom.formal_spin = d["formal_spin"]
+    if "attrib" in d:
+        atom.attrib.update(d["attrib"])
+
+
+def random_deco(rnd, side):
+    """One atom's decoration.  The matcher documents two query fields of PATTERN atoms (isotope, stereo descriptor):
+    those stay at their defaults in patterns; everything else varies on both sides."""
+    d = {}
+    if rnd.random() < 0.7:
+        d["atype"] = rnd.choice(ATYPES)
+    if rnd.random() < 0.5:
+        d["geom"] = rnd.choice(GEOMS)
+    if rnd.random() < 0.3:
+        d["formal_charge"] = rnd.choice((-1, 1, 2))
+    if rnd.random() < 0.2:
+        d["formal_spin"] = rnd.choice((1, 2))
+    if rnd.random() < 0.2:
+        d["attrib"] = {"tag": rnd.choice(("x", "y"))}
+    if side == "target":
+        if rnd.random() < 0.3:
+            d["isotope"] = rnd.choice((2, 13, 15))
+        if rnd.random() < 0.3:
+            d["stereo"] = rnd.choice(ASTEREO)
+    return d
+
+
+def decorate(case, rnd, side):
+    case["deco"] = [random_deco(rnd, side) for _ in range(case["n"])]
+    if side == "target":
+        case["bdeco"] = [({"stereo": rnd.choice(BSTEREO)} if rnd.random() < 0.3 else {}) |
+                         ({"label": f"b{i}"} if rnd.random() < 0.3 else {}) | ({"f_order": 1.5} if rnd.random() < 0.2 else {})
+                         for i in range(len(case["bonds"]))]
+    return case
+
+
 def warm(i=0):
     """Import molli in a worker process (called once per worker before the lanes start)."""
     import time
@@ -32,10 +90,19 @@ def build(case, cls=None):
     mc = _molli()
     c = mc.Connectivity(n_atoms=0)
     atoms = [mc.Atom(mc.Element[e], label=f"a{i + 1}") for i, e in enumerate(case["el"])]
+    for a, d in zip(atoms, case.get("deco") or ()):
+        set_deco(a, d)
     for a in atoms:
         c.append_atom(a)
-    for a, b, t in case["bonds"]:
-        c.connect(atoms[a - 1], atoms[b - 1], btype=mc.BondType[t])
+    bdeco = case.get("bdeco") or [{}] * len(case["bonds"])
+    for (a, b, t), bd in zip(case["bonds"], bdeco):
+        bond = c.connect(atoms[a - 1], atoms[b - 1], btype=mc.BondType[t])
+        if bd.get("stereo"):
+            bond.stereo = mc.BondStereo[bd["stereo"]]
+        if bd.get("label"):
+            bond.label = bd["label"]
+        if "f_order" in bd:
+            bond.f_order = float(bd["f_order"])
     cls = cls or case.get("cls") or "Connectivity"
     if cls == "Connectivity":
         obj = c
@@ -81,7 +148,14 @@ def atomlike(atoms, a, form):
 
 
 def run_query(obj, atoms, bonds, q, hooks=None):
-    """Perform one real query; returns the trace event.  An exception becomes an event no action explains."""
+    """Perform one real query through the handle `obj`; returns the trace event (h = name of the handle)."""
+    e = _run_query(obj, atoms, bonds, q)
+    e["h"] = q.get("h", "obj")
+    return e
+
+
+def _run_query(obj, atoms, bonds, q):
+    """An exception becomes an event no action explains."""
     pos = {a: i + 1 for i, a in enumerate(atoms)}
     try:
         if q["q"] == "bfs":
@@ -316,9 +390,13 @@ def job_exhaustive_match(n, lo, hi, seed, pmax):
         for dressing in ("plain", "elements"):
             case = dress(n, edges, rnd, els=("C",) if dressing == "plain" else ("C", "C", "N"), bts=bt,
                          cls=rnd.choice(CLASSES))
+            if dressing == "elements":
+                decorate(case, rnd, "target")
             qs = []
             for pn, pe in small_patterns(rnd, pmax):
                 pat = dress(pn, pe, rnd, els=("C",) if dressing == "plain" else ("C", "C", "N", "Unknown", "Unknown"), bts=bt)
+                if dressing == "elements":
+                    decorate(pat, rnd, "pattern")
                 qs.append({"q": "match", "api": rnd.choice(("match", "substr")), "pat": pat, "mode": "exact", "must": []})
             out.append(_trace(f"m{n}-{mask}-{dressing}", case, qs))
     return out
@@ -358,6 +436,9 @@ def job_random(lo, hi, seed, nmax):
         else:
             tb = BT_ANY
         tcase = dress(n, edges, rnd, els=EL_TGT if rnd.random() < 0.8 else ("C",), bts=tb, cls=rnd.choice(CLASSES))
+        deco = rnd.random() < 0.6
+        if deco:
+            decorate(tcase, rnd, "target")
         qs = []
         for _ in range(4):
             size = rnd.randint(1, min(n, 4 if style == "gnp" else 6 if n <= 20 else 5))
@@ -366,6 +447,8 @@ def job_random(lo, hi, seed, nmax):
                                      wild=0.35 if kind == "wild" else 0.0, mutate=0.3 if kind == "mutated" else 0.0)
             if flavour == "anytype-vs-unknown":
                 pat["bonds"] = [[a, b, "Unknown"] for a, b, _ in pat["bonds"]]
+            if deco:
+                decorate(pat, rnd, "pattern")
             qs.append({"q": "match", "api": rnd.choice(("match", "substr")), "pat": pat,
                        "mode": "sound" if flavour == "mixed" else "exact", "must": nodes, "kind": kind, "flavour": flavour})
         out.append(_trace(f"r{nmax}-{i}-m", tcase, qs))
@@ -387,14 +470,27 @@ def _view(obj):
     return atoms, bonds, graph_event(obj, atoms, bonds)
 
 
-def _op(op, a=0, b=0, e="", i=0, o2=0, t=""):
-    return {"op": op, "a": a, "b": b, "e": e, "i": i, "o2": o2, "t": t}
+def _op(op, a=0, b=0, e="", i=0, o2=0, t="", via="", deco=None):
+    return {"op": op, "a": a, "b": b, "e": e, "i": i, "o2": o2, "t": t, "via": via, **({"deco": deco} if deco else {})}
 
 
-def apply_edit(obj, atoms, bonds, op, serial):
-    """The real in-place edit for an abstract op (on the target or on the pattern object)."""
+def apply_edit(obj, atoms, bonds, op, serial, handles=None):
+    """The real edit for an abstract op (on the target or on the pattern object).  Structural bond edits go
+    through the handle op["via"]: the object, a held view of it, or the live bond list itself ("list")."""
     mc = _molli()
     k = op["op"]
+    via = op.get("via") or "obj"
+    if k == "connect" and via == "list":
+        obj.bonds.append(mc.Bond(atoms[op["a"] - 1], atoms[op["b"] - 1], btype=mc.BondType[op["t"]]))
+        return
+    if k == "delbond" and via == "list":
+        obj.bonds.remove(bonds[op["i"] - 1])
+        return
+    if handles and via in handles:
+        obj = handles[via]
+    if k == "attr":
+        set_deco(atoms[op["a"] - 1], op["deco"])
+        return
     if k == "relabel":
         atoms[op["a"] - 1].element = mc.Element[op["e"]]
     elif k == "label":
@@ -413,13 +509,14 @@ def apply_edit(obj, atoms, bonds, op, serial):
         raise ValueError(op)
 
 
-def _choose_edit(rnd, gev, flavour, bt, structural_atoms, pn, pel):
+def _choose_edit(rnd, gev, flavour, bt, structural_atoms, pn, pel, vias=("obj",)):
     """An edit that is applicable to the graph the object shows now: ("edit" | "pedit", op)."""
     n, bl = gev["n"], gev["bonds"]
     adj = {i: set() for i in range(1, n + 1)}
     for a, b, _ in bl:
         adj[a].add(b); adj[b].add(a)
-    kinds = ["relabel", "relabel", "prelabel", "prelabel", "label", "plabel", "connect", "delbond"]
+    kinds = ["relabel", "relabel", "prelabel", "prelabel", "label", "plabel", "connect", "connect", "delbond", "delbond",
+             "attr", "pattr"]
     if flavour == "unk":
         kinds += ["rebond", "rebond"]
     if structural_atoms:
@@ -434,6 +531,10 @@ def _choose_edit(rnd, gev, flavour, bt, structural_atoms, pn, pel):
             a = rnd.randint(1, pn)
             e = rnd.choice([x for x in ("C", "N", "O", "Unknown", "Unknown") if x != pel[a - 1]])
             return "pedit", _op("relabel", a=a, e=e)
+        if k == "attr":
+            return "edit", _op("attr", a=rnd.randint(1, n), deco=random_deco(rnd, "target") or {"atype": "sp3"})
+        if k == "pattr":
+            return "pedit", _op("attr", a=rnd.randint(1, pn), deco=random_deco(rnd, "pattern") or {"atype": "sp3"})
         if k == "label":
             return "edit", _op("label", a=rnd.randint(1, n))
         if k == "plabel":
@@ -448,9 +549,9 @@ def _choose_edit(rnd, gev, flavour, bt, structural_atoms, pn, pel):
                 if rnd.random() < 0.5:
                     a, b = b, a
                 t = bt if flavour == "uni" else rnd.choice(BT_ANY)
-                return "edit", _op("connect", a=a, b=b, t=t, o2=_o2(t))
+                return "edit", _op("connect", a=a, b=b, t=t, o2=_o2(t), via=rnd.choice(vias))
         if k == "delbond" and bl:
-            return "edit", _op("delbond", i=rnd.randint(1, len(bl)))
+            return "edit", _op("delbond", i=rnd.randint(1, len(bl)), via=rnd.choice(vias))
         if k == "addatom" and n < 12:
             return "edit", _op("addatom", e=rnd.choice(("C", "N", "O")))
         if k == "delatom" and n > 3:
@@ -458,7 +559,7 @@ def _choose_edit(rnd, gev, flavour, bt, structural_atoms, pn, pel):
     return "edit", _op("label", a=1)
 
 
-def _battery(rnd, gev, focus):
+def _battery(rnd, gev, focus, hs=("obj",)):
     """Queries after an edit: the match of the pattern object and a few traversal / ring / local queries near the edit."""
     n, bl = gev["n"], gev["bonds"]
     adj = {i: [] for i in range(1, n + 1)}
@@ -474,39 +575,57 @@ def _battery(rnd, gev, focus):
         near = [i + 1 for i, (a, b, _) in enumerate(bl) if a in focus or b in focus]
         qs.append({"q": "ring", "b": rnd.choice(near or list(range(1, len(bl) + 1)))})
     qs.append({"q": "local", "a": starts[0], "fa": [rnd.choice(FORMS) for _ in range(3)]})
+    for q in qs:
+        q["h"] = rnd.choice(hs)                       # every query through one of the handles on the graph
+    if len(hs) > 1:                                   # and the listing of the edited atom through EVERY handle
+        qs += [{"q": "local", "a": starts[0], "fa": [rnd.choice(FORMS) for _ in range(3)], "h": h} for h in hs]
     return qs
 
 
 def history(tcase, pcase, flavour, *, rnd=None, n_edits=6, script=None):
-    """One trace on ONE target object and ONE pattern object.  With `script` (a replay) the recorded steps are
-    followed literally; otherwise the steps are chosen from what the objects show after each edit."""
+    """One trace on ONE target graph and ONE pattern object.  The target is reached through several handles where
+    the class offers them (the ensemble and two held Conformer views of it; the live bond list for edits); queries
+    and edits are interleaved across the handles.  With `script` (a replay) the recorded steps are followed
+    literally; otherwise the steps are chosen from what the object shows after each edit."""
     obj, atoms, bonds = build(tcase)
     pobj, patoms, pbonds = build(pcase, "Connectivity")
     atoms, bonds, gev = _view(obj)
     patoms, pbonds, pgev = _view(pobj)
     evs = [gev, {"ev": "pattern", "pn": pgev["n"], "pel": pgev["el"], "pb": [[a, b] for a, b, _ in pgev["bonds"]]}]
+    handles = {"obj": obj}
+    if (tcase.get("cls") or "Connectivity") == "ConformerEnsemble":
+        for h in ("view", "view2"):                   # two held views of conformer 0: each is an object of its own
+            handles[h] = obj[0]
+            evs.append({"ev": "open", "h": h})
+    hs = tuple(handles)
+    vias = hs + ("list",)
     out_script = []
     bt = tcase["bonds"][0][2] if tcase["bonds"] else "Single"
     structural_atoms = (tcase.get("cls") or "Connectivity") == "Connectivity"
 
     def query(q):
+        hobj = handles[q.get("h", "obj")]
         if q["q"] == "matchp":
             pos = {a: i + 1 for i, a in enumerate(atoms)}
             try:
                 if q["api"] == "match":
-                    maps = [[pos.get(m[x], 0) for x in patoms] for m in obj.match(pobj)]
+                    maps = [[pos.get(m[x], 0) for x in patoms] for m in hobj.match(pobj)]
                 else:
-                    maps = [[int(i) + 1 for i in m] for m in obj.get_substr_indices(pobj)]
-                return {"ev": "matchp", "api": q["api"], "pel": [a.element.name for a in patoms], "maps": maps, "mode": q["mode"]}
+                    maps = [[int(i) + 1 for i in m] for m in hobj.get_substr_indices(pobj)]
+                return {"ev": "matchp", "api": q["api"], "pel": [a.element.name for a in patoms], "maps": maps,
+                        "mode": q["mode"], "h": q.get("h", "obj")}
             except Exception as e:                                # noqa: BLE001
-                return {"ev": "raised", "q": "matchp", "exc": type(e).__name__, "msg": str(e)[:200]}
-        return run_query(obj, atoms, bonds, q)
+                return {"ev": "raised", "q": "matchp", "exc": type(e).__name__, "msg": str(e)[:200], "h": q.get("h", "obj")}
+        return run_query(hobj, atoms, bonds, q)
 
     steps = iter(script) if script is not None else None
     serial = 0
     focus = [1]
     phase_edits = 0
-    pending = _battery(rnd, gev, focus) if script is None else []
+    pending = []
+    if script is None:                                # before the first edit every handle answers once (and may cache)
+        for h in hs:
+            pending += [dict(q, h=h) for q in _battery(rnd, gev, focus)]
     while True:
         if steps is not None:
             st = next(steps, None)
@@ -516,7 +635,8 @@ def history(tcase, pcase, flavour, *, rnd=None, n_edits=6, script=None):
             if pending:
                 st = {"step": "query", "q": pending.pop(0)}
             elif phase_edits < n_edits:
-                which, op = _choose_edit(rnd, gev, flavour, bt, structural_atoms, len(patoms), [a.element.name for a in patoms])
+                which, op = _choose_edit(rnd, gev, flavour, bt, structural_atoms, len(patoms),
+                                         [a.element.name for a in patoms], vias)
                 st = {"step": which, "op": op}
                 phase_edits += 1
             else:
@@ -529,21 +649,27 @@ def history(tcase, pcase, flavour, *, rnd=None, n_edits=6, script=None):
         serial += 1
         try:
             if st["step"] == "edit":
-                apply_edit(obj, atoms, bonds, op, serial)
+                apply_edit(obj, atoms, bonds, op, serial, handles)
                 atoms, bonds, gev = _view(obj)
-                evs.append({"ev": "edit", **op, "n": gev["n"], "el": gev["el"], "bonds": gev["bonds"]})
+                evs.append({"ev": "edit", **{k: v for k, v in op.items() if k != "deco"}, "deco": json_safe(op.get("deco")),
+                            "n": gev["n"], "el": gev["el"], "bonds": gev["bonds"]})
                 focus = [x for x in (op["a"], op["b"]) if x] or ([gev["bonds"][op["i"] - 1][0]] if op["op"] == "rebond" else [1])
                 if op["op"] == "addatom":
                     focus = [gev["n"]]
             else:
                 apply_edit(pobj, patoms, pbonds, op, serial)
-                evs.append({"ev": "pedit", **op})
+                evs.append({"ev": "pedit", **{k: v for k, v in op.items() if k != "deco"}, "deco": json_safe(op.get("deco"))})
         except Exception as e:                                    # noqa: BLE001 - the edit itself failed: outside C15
             evs.append({"ev": "edit-raised", "op": op["op"], "exc": type(e).__name__, "msg": str(e)[:200]})
             break
         if steps is None:
-            pending = _battery(rnd, gev, focus)
+            pending = _battery(rnd, gev, focus, hs)
     return evs, out_script
+
+
+def json_safe(d):
+    """Decorations are information only in a trace: a flat string keeps heterogeneous records away from TLC."""
+    return "" if not d else ",".join(f"{k}={v}" for k, v in sorted(d.items()))
 
 
 def job_history(lo, hi, seed, nmax):
@@ -554,9 +680,11 @@ def job_history(lo, hi, seed, nmax):
         edges = random_graph(rnd, n, "mol" if rnd.random() < 0.6 else "gnp")
         flavour = rnd.choice(("uni", "unk"))
         bt = rnd.choice(BT_MATCH)
-        cls = "Connectivity" if rnd.random() < 0.5 else rnd.choice(CLASSES)
+        cls = rnd.choice(("Connectivity", "Connectivity", "ConformerEnsemble", "ConformerEnsemble", "Molecule", "Structure"))
         tcase = dress(n, edges, rnd, els=("C", "C", "N", "O"), bts=bt if flavour == "uni" else BT_ANY, cls=cls)
         pat, _ = cut_pattern(tcase, rnd, rnd.randint(1, min(n, 4)), wild=0.15)
+        if rnd.random() < 0.6:
+            decorate(tcase, rnd, "target"); decorate(pat, rnd, "pattern")
         if flavour == "unk":
             pat["bonds"] = [[a, b, "Unknown"] for a, b, _ in pat["bonds"]]
         evs, script = history(tcase, pat, flavour, rnd=rnd, n_edits=rnd.randint(4, 7))
@@ -584,8 +712,12 @@ def job_mutant(name, seed):
         for gi, edges in enumerate(graphs):
             case = dress(5, edges, rnd, els=("C", "N"), bts="Aromatic")
             qs = traversal_queries(case, rnd, both_apis=True)
+            if gi % 2:
+                decorate(case, rnd, "target")
             for pn, pe in small_patterns(rnd, 4):
                 pat = dress(pn, pe, rnd, els=("C", "Unknown"), bts="Aromatic")
+                if gi % 2:
+                    decorate(pat, rnd, "pattern")
                 qs.append({"q": "match", "api": rnd.choice(("match", "substr")), "pat": pat, "mode": "exact", "must": []})
             out.append(_trace(f"mut-{name}-{gi}", case, qs))
     return out
@@ -679,12 +811,43 @@ def mutants():
             c[1][_a] = [b % _a for b in self.bonds_with_atom(_a)]
         yield from c[1][_a]                           # stale after connect / del_bond
 
+    def node_match_atype(a1, a2):                     # an attribute the property does not name decides the match
+        if a1["atype"] != mc.AtomType.Unknown and a1["atype"] != a2["atype"]:
+            return False
+        return _orig_node(a1, a2)
+
+    tables = {}
+
+    def bonds_with_atom_table(self, a):               # a table per HANDLE, dropped only by edits through that handle
+        _a = self.get_atom(a)
+        t = tables.get(id(self))
+        if t is None or t[0]() is not self:
+            tab = {}
+            for b in self._bonds:
+                tab.setdefault(b.a1, []).append(b)
+                tab.setdefault(b.a2, []).append(b)
+            import weakref
+            t = (weakref.ref(self), tab)
+            tables[id(self)] = t
+        yield from t[1].get(_a, ())
+
+    def _dropping(name):
+        orig = C.__dict__[name]
+
+        def f(self, *a, **k):
+            tables.pop(id(self), None)
+            return orig(self, *a, **k)
+        return f
+
+    out["AtypeDecidesMatch"] = {"_node_match": staticmethod(node_match_atype)}
+    out["PerHandleBondTable"] = {"bonds_with_atom": bonds_with_atom_table, "append_bond": _dropping("append_bond"),
+                                 "del_bond": _dropping("del_bond")}
     out["MemoisedNxGraph"] = {"to_nxgraph": to_nxgraph_memo}
     out["MemoisedAdjacency"] = {"connected_atoms": connected_atoms_memo}
     return out
 
 
-HISTORY_MUTANTS = ("MemoisedNxGraph", "MemoisedAdjacency")
+HISTORY_MUTANTS = ("MemoisedNxGraph", "MemoisedAdjacency", "PerHandleBondTable")
 
 
 class patched:
